@@ -214,7 +214,7 @@ class Target(object):
         self.streams = []
 
     def opname(self, dirn):
-        return {"e": "encrypt", "d": "decrypt", "h": self.streams[-1].op}[dirn]
+        return {"e": "encrypt", "d": "decrypt", "h": "+".join(st.op for st in self.streams)}[dirn]
 
     # --- hooks ---------------------------------------------------------------
     def open(self, dirn, inputs, aux, ctor_obj):
@@ -228,6 +228,18 @@ class Target(object):
 
     def ref(self, inputs):
         return None
+
+    def src_new(self, dirn, inputs, aux, data_expr=None):
+        """-> (import line, expression creating a fresh object) for the stand-alone script"""
+        raise NotImplementedError
+
+
+def _hx(b):
+    return 'bytes.fromhex("%s")' % bytes(b).hex()
+
+
+def _kwsrc(kw):
+    return "".join(", %s=%r" % kv for kv in sorted(kw.items()))
 
 
 def _ref_cipher(cname, key, kw=None):
@@ -343,6 +355,15 @@ class BlockModeTarget(Target):
             return [enc_out[n:]], {"eiv": enc_out[:n]}, (inputs[0], b"")
         return [enc_out], {}, (inputs[0], b"")
 
+    def src_new(self, dirn, inputs, aux, data_expr=None):
+        c, mode = self.cname, self.mode
+        a = {"ECB": "", "CBC": ", iv=%s" % _hx(self.iv), "OFB": ", iv=%s" % _hx(self.iv),
+             "CFB": ", iv=%s, segment_size=%d" % (_hx(self.iv), self.seg),
+             "CTR": ", nonce=%s" % _hx(self.nonce),
+             "OPENPGP": ", iv=%s" % _hx(aux.get("eiv", self.iv) if dirn == "d" else self.iv)}[mode]
+        return ("from Crypto.Cipher import %s" % c,
+                "%s.new(%s, %s.MODE_%s%s%s)" % (c, _hx(self.key), c, mode, a, _kwsrc(self.extra)))
+
     def ref(self, inputs):
         from ..ref import modes
         c, indep = _ref_cipher(self.cname, self.key)
@@ -378,7 +399,7 @@ class StreamCipherTarget(Target):
         self.key = seeded("c09/key/%s/%d" % (sname, klen), klen)
         self.nonce = seeded("c09/nonce/%s/%d" % (sname, nlen), nlen)
         self.name = "%s(key %d%s)" % (sname, klen, ", nonce %d" % nlen if nlen else "")
-        self.keyname = "XChaCha20" if (sname == "ChaCha20" and nlen == 24) else sname
+        self.keyname = sname
         if sname == "ARC4":
             st = Stream("m", "encrypt/decrypt", 16, bset(16, (255, 256, 257)), has_out=False)
         else:
@@ -393,6 +414,12 @@ class StreamCipherTarget(Target):
 
     def dec_setup(self, inputs, enc_out, enc_final):
         return [enc_out], {}, (inputs[0], b"")
+
+    def src_new(self, dirn, inputs, aux, data_expr=None):
+        n = self.sname
+        if n == "ARC4":
+            return "from Crypto.Cipher import ARC4", "ARC4.new(%s)" % _hx(self.key)
+        return "from Crypto.Cipher import %s" % n, "%s.new(key=%s, nonce=%s)" % (n, _hx(self.key), _hx(self.nonce))
 
     def ref(self, inputs):
         from ..ref import chacha, rc4
@@ -427,7 +454,7 @@ class AeadTarget(Target):
             self.key = seeded("c09/key/chapoly", 32)
             self.nonce = seeded("c09/nonce/chapoly/%d" % variant, variant)
             self.name = "%sChaCha20-Poly1305(nonce %d)" % ("X" if variant == 24 else "", variant)
-            self.keyname = "XChaCha20-Poly1305" if variant == 24 else "ChaCha20-Poly1305"
+            self.keyname = "ChaCha20-Poly1305"
             ca, cm = 16, 64
             self.combo_out = False
             has_out = True
@@ -447,7 +474,7 @@ class AeadTarget(Target):
             if mode == "CCM":
                 self.multi_m = bool(variant[1])
         ext_m = ()
-        if mode in ("GCM", "CCM", "EAX") and thorough:
+        if mode in ("GCM", "CCM", "EAX"):
             ext_m = (8 * cm - 1, 8 * cm, 8 * cm + 1)       # CTR keystream buffer inside the AEAD
         if mode == "CHAPOLY":
             ext_m = (15, 16, 17, 31, 32, 33)               # Poly1305 block inside
@@ -482,6 +509,20 @@ class AeadTarget(Target):
 
     def dec_setup(self, inputs, enc_out, enc_final):
         return [inputs[0], enc_out], {"tag": enc_final}, (inputs[1], b"ok")
+
+    def src_new(self, dirn, inputs, aux, data_expr=None):
+        if self.mode == "CHAPOLY":
+            return ("from Crypto.Cipher import ChaCha20_Poly1305",
+                    "ChaCha20_Poly1305.new(key=%s, nonce=%s)" % (_hx(self.key), _hx(self.nonce)))
+        kw = dict(self.extra)
+        if self.mode == "CCM":
+            if self.variant[0]:
+                kw["assoc_len"] = len(inputs[0])
+            if self.variant[1]:
+                kw["msg_len"] = len(inputs[1])
+        c = self.cname
+        return ("from Crypto.Cipher import %s" % c,
+                "%s.new(%s, %s.MODE_%s, nonce=%s%s)" % (c, _hx(self.key), c, self.mode, _hx(self.nonce), _kwsrc(kw)))
 
     def ref(self, inputs):
         from ..ref import modes
@@ -561,6 +602,13 @@ class HashTarget(Target):
             return HashSession(self.mod.new(data=ctor_obj, **self.kw))
         return HashSession(self.mod.new(**self.kw))
 
+    def src_new(self, dirn, inputs, aux, data_expr=None):
+        m = self.mod.__name__.split(".")[-1]
+        kw = ["%s=%s" % (k, _hx(v) if isinstance(v, bytes) else repr(v)) for k, v in sorted(self.kw.items())]
+        if data_expr:
+            kw.insert(0, "data=" + data_expr)
+        return "from Crypto.Hash import %s" % m, "%s.new(%s)" % (m, ", ".join(kw))
+
     def ref(self, inputs):
         msg = inputs[0]
         r = self.refname
@@ -638,6 +686,23 @@ class MacTarget(Target):
                 kw["data"] = ctor_obj
             return HashSession(Poly1305.new(**kw))
 
+    def src_new(self, dirn, inputs, aux, data_expr=None):
+        fam = self.fam
+        if fam == "HMAC":
+            d = self.dmod.__name__.split(".")[-1]
+            return ("from Crypto.Hash import HMAC, %s" % d,
+                    "HMAC.new(%s, %sdigestmod=%s)" % (_hx(self.key), ("msg=%s, " % data_expr) if data_expr else "", d))
+        if fam == "CMAC":
+            return ("from Crypto.Hash import CMAC\nfrom Crypto.Cipher import %s" % self.param,
+                    "CMAC.new(%s, %sciphermod=%s)" % (_hx(self.key), ("msg=%s, " % data_expr) if data_expr else "", self.param))
+        if fam in ("KMAC128", "KMAC256"):
+            return ("from Crypto.Hash import %s" % fam,
+                    "%s.new(key=%s, mac_len=%d, custom=%r%s)" % (fam, _hx(self.key), self.param, self.custom,
+                                                                  (", data=" + data_expr) if data_expr else ""))
+        return ("from Crypto.Hash import Poly1305\nfrom Crypto.Cipher import %s" % self.param,
+                "Poly1305.new(key=%s, cipher=%s, nonce=%s%s)" % (_hx(self.key), self.param, _hx(self.nonce),
+                                                                (", data=" + data_expr) if data_expr else ""))
+
     def ref(self, inputs):
         msg = inputs[0]
         fam = self.fam
@@ -709,6 +774,17 @@ class XofTarget(Target):
         elif fam.startswith("TurboSHAKE"):
             kw["domain"] = self.variant
         return XofSession(self.mod.new(**kw))
+
+    def src_new(self, dirn, inputs, aux, data_expr=None):
+        fam = self.fam
+        kw = []
+        if data_expr:
+            kw.append("data=" + data_expr)
+        if fam in ("cSHAKE128", "cSHAKE256", "KangarooTwelve"):
+            kw.append("custom=" + _hx(self.custom))
+        elif fam.startswith("TurboSHAKE"):
+            kw.append("domain=0x%02x" % self.variant)
+        return "from Crypto.Hash import %s" % fam, "%s.new(%s)" % (fam, ", ".join(kw))
 
     def ref(self, inputs):
         from ..ref import keccak
@@ -788,18 +864,17 @@ def all_specs(thorough):
     for nlen in (8, 12, 24):
         out.append((("aead", "CHAPOLY", "ChaCha20", 32, nlen, ()), nlen == 12))
     # hashes
-    prim_h = ("MD5", "SHA1", "SHA256", "SHA512", "SHA3-256", "BLAKE2b-512", "BLAKE2s-128-keyed", "MD2")
     for name in _HASHES:
-        out.append((("hash", name), name in prim_h))
+        out.append((("hash", name), True))
     # MACs
     for d in ("MD5", "SHA1", "SHA256", "SHA512", "SHA3-256", "RIPEMD160"):
-        out.append((("mac", "HMAC", d), d == "SHA256"))
+        out.append((("mac", "HMAC", d), True))
     out += [(("mac", "CMAC", "AES"), True), (("mac", "CMAC", "DES3"), True),
-            (("mac", "KMAC128", 32), True), (("mac", "KMAC256", 64), False),
-            (("mac", "Poly1305", "AES"), True), (("mac", "Poly1305", "ChaCha20"), False)]
+            (("mac", "KMAC128", 32), True), (("mac", "KMAC256", 64), True),
+            (("mac", "Poly1305", "AES"), True), (("mac", "Poly1305", "ChaCha20"), True)]
     # XOFs
     out += [(("xof", "SHAKE128", None), True), (("xof", "SHAKE256", None), True),
-            (("xof", "cSHAKE128", 7), True), (("xof", "cSHAKE256", 7), False),
-            (("xof", "TurboSHAKE128", 0x1F), True), (("xof", "TurboSHAKE256", 0x0B), False),
+            (("xof", "cSHAKE128", 7), True), (("xof", "cSHAKE256", 7), True),
+            (("xof", "TurboSHAKE128", 0x1F), True), (("xof", "TurboSHAKE256", 0x0B), True),
             (("xof", "KangarooTwelve", 0), True), (("xof", "KangarooTwelve", 5), True)]
     return out
